@@ -1,31 +1,5 @@
 // ===== prelude/svc.rs — stand-ins for the service registry (C08) =====
-pub uninterp spec fn type_id<T>() -> int;
-#[verifier::external_body] #[derive(Clone, Copy)]
-pub struct TypeIdV { x: u8 }
-impl TypeIdV { pub uninterp spec fn id(&self) -> int; }
-#[verifier::external_body]
-pub fn type_id_exec<T>() -> (r: TypeIdV) ensures r.id() == type_id::<T>() { unimplemented!() }
-// what a type-erased box holds
-pub trait AnyValued { spec fn any_val(&self) -> AnyVal; }
-impl<T: AnyValued> AnyValued for Box<T> { open spec fn any_val(&self) -> AnyVal { (**self).any_val() } }
-#[verifier::external_body]
-pub struct AnyBox { x: u8 }
-impl AnyBox {
-    pub uninterp spec fn val(&self) -> AnyVal;
-    #[verifier::external_body]
-    pub fn downcast_ref<T: AnyValued>(&self) -> (r: Option<&T>)
-        ensures r is Some <==> self.val().tid == type_id::<T>(), r is Some ==> r->0.any_val() == self.val()
-    { unimplemented!() }
-    #[verifier::external_body]
-    pub fn downcast<T: AnyValued>(self) -> (r: Result<Box<T>, AnyBox>)
-        ensures r is Ok <==> self.val().tid == type_id::<T>(), r is Ok ==> r->Ok_0.any_val() == self.val()
-    { unimplemented!() }
-}
-impl<T: AnyValued> BoxNew<T> for AnyBox {
-    open spec fn boxed_ok(t: &T, r: &Self) -> bool { r.val() == t.any_val() }
-    #[verifier::external_body] fn box_new_(t: T) -> (r: Self) { unimplemented!() }
-}
-// the registry: `static REGISTRY: LazyLock<async_lock::RwLock<HashMap<TypeId, AnyBox>>>`
+// the registry: `static REGISTRY: LazyLock<async_lock::RwLock<HashMap<TypeId, AnyBoxObj>>>`
 // well-formedness: an entry under type_id::<A>() holds an Addr<A> (the only writers are the functions of this unit, which keep it)
 pub uninterp spec fn addr_tid_of(k: int) -> int;
 pub broadcast axiom fn addr_tid_axiom<A>() ensures #[trigger] addr_tid_of(type_id::<A>()) == type_id::<Addr<A>>();
@@ -65,30 +39,30 @@ impl RegistryLock {
 pub fn vdrop_write(g: WriteGuard, Tracked(w): Tracked<&mut World>) requires old(w).locked ensures *final(w) == (World { locked: false, ..*old(w) }) { unimplemented!() }
 impl ReadGuard {
     #[verifier::external_body]
-    pub fn get(&self, key: &TypeIdV, Tracked(w): Tracked<&mut World>) -> (r: Option<&AnyBox>)
+    pub fn get(&self, key: &TypeIdV, Tracked(w): Tracked<&mut World>) -> (r: Option<&AnyBoxObj>)
         requires old(w).locked,                                                                                               // @ob lock.registry-read-under-lock C08
         ensures r is Some <==> old(w).registry.dom().contains(key.id()), r is Some ==> r->0.val() == old(w).registry[key.id()], same_world(old(w), final(w))
     { unimplemented!() }
 }
 impl WriteGuard {
     #[verifier::external_body]
-    pub fn get(&self, key: &TypeIdV, Tracked(w): Tracked<&mut World>) -> (r: Option<&AnyBox>)
+    pub fn get(&self, key: &TypeIdV, Tracked(w): Tracked<&mut World>) -> (r: Option<&AnyBoxObj>)
         requires old(w).locked,                                                                                               // @ob lock.registry-read-under-lock C08
         ensures r is Some <==> old(w).registry.dom().contains(key.id()), r is Some ==> r->0.val() == old(w).registry[key.id()], same_world(old(w), final(w))
     { unimplemented!() }
     #[verifier::external_body]
-    pub fn get_mut(&mut self, key: &TypeIdV, Tracked(w): Tracked<&mut World>) -> (r: Option<&AnyBox>)
+    pub fn get_mut(&mut self, key: &TypeIdV, Tracked(w): Tracked<&mut World>) -> (r: Option<&AnyBoxObj>)
         requires old(w).locked,                                                                                               // @ob lock.registry-read-under-lock C08
         ensures r is Some <==> old(w).registry.dom().contains(key.id()), r is Some ==> r->0.val() == old(w).registry[key.id()], same_world(old(w), final(w))
     { unimplemented!() }
     #[verifier::external_body]
-    pub fn insert(&mut self, key: TypeIdV, v: AnyBox, Tracked(w): Tracked<&mut World>) -> (r: Option<AnyBox>)
+    pub fn insert(&mut self, key: TypeIdV, v: AnyBoxObj, Tracked(w): Tracked<&mut World>) -> (r: Option<AnyBoxObj>)
         requires old(w).locked,                                                                                               // @ob lock.registry-written-under-lock C08
         ensures *final(w) == (World { registry: old(w).registry.insert(key.id(), v.val()), ..*old(w) }),
                 r is Some <==> old(w).registry.dom().contains(key.id()), r is Some ==> r->0.val() == old(w).registry[key.id()]
     { unimplemented!() }
     #[verifier::external_body]
-    pub fn remove(&mut self, key: &TypeIdV, Tracked(w): Tracked<&mut World>) -> (r: Option<AnyBox>)
+    pub fn remove(&mut self, key: &TypeIdV, Tracked(w): Tracked<&mut World>) -> (r: Option<AnyBoxObj>)
         requires old(w).locked,                                                                                               // @ob lock.registry-written-under-lock C08
         ensures *final(w) == (World { registry: old(w).registry.remove(key.id()), ..*old(w) }),
                 r is Some <==> old(w).registry.dom().contains(key.id()), r is Some ==> r->0.val() == old(w).registry[key.id()]
